@@ -19,6 +19,8 @@ void world_reset(const plan_t *p)
     c.reuse = (int)plan_get(p, "alloc.reuse", REUSE_NEVER);
     c.place = (int)plan_get(p, "alloc.place", PLACE_COMPACT);
     c.seed = (uint64_t)plan_get(p, "alloc.seed", (long)p->seed);
+    c.zero_null = (int)plan_get(p, "alloc.zero", 0);
+    c.realloc0_unique = (int)plan_get(p, "alloc.realloc0", 0);
     sa_reset(&c);
     simfd_reset(plan_get(p, "sock.rxcap", 4096));
     simfs_reset(p->seed);
